@@ -18,7 +18,7 @@ def main():
         rule='per document 36 random option combinations + explicit-default twins; non-trivial = distinct documents with >= 2 spines',
         mc=[('MC_SpinePaths', 'MC_SpinePaths_opts.cfg', 'MC_SpinePaths(CommuteLaw, FilterIdentity, SubsequenceLaw)'),
             ('MC_SpinePaths', 'MC_SpinePaths_c06.cfg', 'MC_SpinePaths(ProjectionLaw)')],
-        populations=[('main', dp.sess_c13, 110, 1800, {}), ('multi_character_signifiers', dp.sess_c13, 15, 300, {'profile': 'multi_sigs'})],
+        populations=[('main', dp.sess_c13, 110, 1800, {}), ('multi_character_signifiers', dp.sess_c13, 15, 300, {'profile': 'multi_sigs'}), ('root_spines', dp.sess_c13, 8, 150, {'profile': 'with_root'})],
         nontrivial=lambda s: 'multi-spine' in s['tags'],
         symptom_of=symptom_of, explored=['natural_or_display_suffix'])
 
